@@ -174,6 +174,12 @@ func (k *Worker) restoreNode(i int, h string) {
 	k.curSnap[i] = h
 }
 
+// NodeAt materialises node i as it is in state s and returns the live node (read-only use).
+func (k *Worker) NodeAt(s *State, i int) *world.Node {
+	k.restoreNode(i, s.Snap[i])
+	return k.W.Nodes[i]
+}
+
 func msgDigest(m storage.Message) string {
 	h := sha256.New()
 	fmt.Fprintf(h, "%s|%s|%d|%s|%s|%s|", m.ID, m.DkgRoundID, m.Offset, m.Event, m.SenderAddr, m.RecipientAddr)
